@@ -388,17 +388,53 @@ fn gen_op(rng: &mut Rng, client: usize, ctr: &mut u32, key: usize, lua: bool) ->
     }
 }
 
-async fn run_history(cfg: &HistCfg, seed: u64) -> Vec<Rec> {
+/// Progress counter for the quiescence monitor: every hook-site pass and every stamp taken.
+fn activity() -> u64 {
+    verif_hooks::site_hits().iter().sum::<u64>() + CLOCK.load(Ordering::SeqCst)
+}
+
+/// Wait for the client tasks. If some are still unfinished while *nothing at all* has happened for 8 s
+/// (no H2 site passed by any shard actor or handle, no stamp taken by any client), the pending calls
+/// can no longer complete: the tasks are aborted and `true` is returned. The criterion is the absence
+/// of observable events, not the duration of any operation.
+async fn join_or_stuck(hs: Vec<tokio::task::JoinHandle<()>>, extra: &dyn Fn() -> u64) -> bool {
+    let mut last = activity() + extra();
+    let mut quiet = 0u32;
+    loop {
+        if hs.iter().all(|h| h.is_finished()) {
+            return false;
+        }
+        tokio::time::sleep(std::time::Duration::from_millis(100)).await;
+        let now = activity() + extra();
+        if now != last {
+            last = now;
+            quiet = 0;
+        } else {
+            quiet += 1;
+        }
+        if quiet >= 80 {
+            for h in &hs {
+                h.abort();
+            }
+            return true;
+        }
+    }
+}
+
+/// Returns the history and the calls that were still pending when the system went quiet for good.
+async fn run_history(cfg: &HistCfg, seed: u64) -> (Vec<Rec>, Vec<Rec>) {
     let mut pc: PerformanceConfig = toml_default();
     pc.num_shards = cfg.shards;
     pc.response_pool.capacity = cfg.pool.max(1);
     pc.response_pool.prewarm = cfg.pool.min(pc.response_pool.capacity);
     let st = ShardedActorState::with_perf_config(&pc);
     let log: Arc<Mutex<Vec<Rec>>> = Arc::new(Mutex::new(vec![]));
+    let pending: Arc<Mutex<HashMap<usize, Rec>>> = Arc::new(Mutex::new(HashMap::new()));
     let mut hs = vec![];
     for c in 0..cfg.clients {
         let st = st.clone();
         let log = log.clone();
+        let pending = pending.clone();
         let (keys, n, cancel, lua) = (cfg.keys, cfg.ops_per_client, cfg.cancel, cfg.lua);
         hs.push(tokio::spawn(async move {
             let mut rng = rng_from(seed, c as u64 + 1);
@@ -408,6 +444,7 @@ async fn run_history(cfg: &HistCfg, seed: u64) -> Vec<Rec> {
                 let kname = key_name(key);
                 let (op, via) = gen_op(&mut rng, c, &mut ctr, key, lua);
                 let call = stamp();
+                pending.lock().unwrap().insert(c, Rec { client: c, key, op: op.clone(), via: via.clone(), call, ret: None });
                 let fut = do_op(&st, &kname, &op, &via);
                 let res = if cancel && rng.gen_bool(0.08) {
                     // abandon the call after a few scheduler turns: it may or may not take effect
@@ -421,6 +458,7 @@ async fn run_history(cfg: &HistCfg, seed: u64) -> Vec<Rec> {
                     Some(fut.await)
                 };
                 let ret = res.map(|r| (stamp(), r));
+                pending.lock().unwrap().remove(&c);
                 log.lock().unwrap().push(Rec { client: c, key, op, via, call, ret });
                 if rng.gen_bool(0.2) {
                     tokio::task::yield_now().await;
@@ -428,11 +466,16 @@ async fn run_history(cfg: &HistCfg, seed: u64) -> Vec<Rec> {
             }
         }));
     }
-    for h in hs {
-        let _ = h.await;
+    let stuck = join_or_stuck(hs, &|| 0).await;
+    let mut v = log.lock().unwrap().clone();
+    let mut lost = vec![];
+    if stuck {
+        for (_, r) in pending.lock().unwrap().drain() {
+            lost.push(r.clone());
+            v.push(r);
+        }
     }
-    let v = log.lock().unwrap().clone();
-    v
+    (v, lost)
 }
 
 fn toml_default() -> PerformanceConfig {
@@ -575,10 +618,18 @@ pub fn lin_leg(args: &Args) {
         PAUSE_SEED.store(h64(&(args.seed, args.shard, h)), Ordering::Relaxed);
         let rt = tokio::runtime::Builder::new_multi_thread().worker_threads(workers).enable_all().build().unwrap();
         let seed = h64(&(args.seed, args.shard as u64, h, 77u8));
-        let hist = rt.block_on(run_history(&cfg, seed));
-        drop(rt);
+        let (hist, lost) = rt.block_on(run_history(&cfg, seed));
+        rt.shutdown_background();
         rep.evaluations += 1;
         let cj = json!({"shards": cfg.shards, "clients": cfg.clients, "keys": cfg.keys, "ops_per_client": cfg.ops_per_client, "pool": cfg.pool, "cancel": cfg.cancel, "workers": workers});
+        for r in &lost {
+            rep.count("replies_never_delivered");
+            rep.violation(
+                format!("C02|reply-never-delivered|via={:?}", r.via),
+                format!("client {} invoked {:?} on {} and never got a reply: every client, shard actor and hand-off site was silent for 8 s while the call was pending", r.client, r.op, key_name(r.key)),
+                json!({"cfg": cj, "history": hist.iter().filter(|o| o.key == r.key).map(op_json).collect::<Vec<_>>()}),
+            );
+        }
         judge(&mut rep, &hist, &cj);
         rep.count(&format!("shards:{}", cfg.shards));
         if h < 2 {
@@ -659,9 +710,13 @@ async fn run_conn_history(cfg: &ConnCfg, seed: u64) -> ConnOutcome {
     let ccfg = ConnectionConfig { max_buffer_size: 1 << 20, read_buffer_size: cfg.read_size, min_pipeline_buffer: cfg.min_pipeline_buffer, batch_threshold: cfg.batch_threshold };
     let pool = if cfg.shared_pool { Some(Arc::new(ConnectionPool::new(2, 2))) } else { None };
     let log: Arc<Mutex<ConnOutcome>> = Arc::new(Mutex::new(ConnOutcome::default()));
+    let pending: Arc<Mutex<HashMap<usize, Vec<Rec>>>> = Arc::new(Mutex::new(HashMap::new()));
+    let mut ctls: Vec<crate::conn::Controller> = vec![];
     let mut hs = vec![];
     for c in 0..cfg.clients {
         let (stream, ctl) = crate::conn::scripted();
+        ctls.push(ctl.clone());
+        let pending = pending.clone();
         let stc = st.clone();
         let cc = ccfg.clone();
         let server = match pool.clone() {
@@ -699,6 +754,7 @@ async fn run_conn_history(cfg: &ConnCfg, seed: u64) -> ConnOutcome {
                 points.sort();
                 points.dedup();
                 let calls: Vec<u64> = ops.iter().map(|_| stamp()).collect();
+                pending.lock().unwrap().insert(c, ops.iter().enumerate().map(|(i, (k, op))| Rec { client: c, key: *k, op: op.clone(), via: Via::Conn, call: calls[i], ret: None }).collect());
                 let mut from = 0;
                 for pnt in points {
                     ctl.send(&bytes[from..pnt]);
@@ -735,6 +791,7 @@ async fn run_conn_history(cfg: &ConnCfg, seed: u64) -> ConnOutcome {
                         for (i, (k, op)) in ops.iter().enumerate() {
                             l.hist.push(Rec { client: c, key: *k, op: op.clone(), via: Via::Conn, call: calls[i], ret: got.get(i).cloned() });
                         }
+                        pending.lock().unwrap().remove(&c);
                         break 'bursts;
                     }
                     if got.len() == ops.len() {
@@ -751,6 +808,8 @@ async fn run_conn_history(cfg: &ConnCfg, seed: u64) -> ConnOutcome {
                             for (i, (k, op)) in ops.iter().enumerate() {
                                 l.hist.push(Rec { client: c, key: *k, op: op.clone(), via: Via::Conn, call: calls[i], ret: got.get(i).cloned() });
                             }
+                            drop(l);
+                            pending.lock().unwrap().remove(&c);
                             break 'bursts;
                         }
                         for _ in 0..50 {
@@ -760,6 +819,7 @@ async fn run_conn_history(cfg: &ConnCfg, seed: u64) -> ConnOutcome {
                     }
                     ctl.changed(g).await;
                 }
+                pending.lock().unwrap().remove(&c);
                 {
                     let mut l = log.lock().unwrap();
                     l.bursts_by_len.push(ops.len());
@@ -781,10 +841,15 @@ async fn run_conn_history(cfg: &ConnCfg, seed: u64) -> ConnOutcome {
             let _ = server.await;
         }));
     }
-    for h in hs {
-        let _ = h.await;
-    }
+    let stuck = join_or_stuck(hs, &|| ctls.iter().map(|c| c.gen()).sum()).await;
     let mut g = log.lock().unwrap();
+    if stuck {
+        // a connection handler that neither answers nor returns to reading while nothing else moves
+        for (c, recs) in pending.lock().unwrap().drain() {
+            g.anomalies.push((c, "reply-missing".into(), json!({"handler": "stuck: no reply, no return to reading, no hook-site or stream event for 8 s", "burst": recs.iter().map(|r| format!("{} {:?}", key_name(r.key), r.op)).collect::<Vec<_>>()})));
+            g.hist.extend(recs);
+        }
+    }
     std::mem::take(&mut *g)
 }
 
@@ -842,7 +907,7 @@ pub fn conn_leg(args: &Args) {
         let rt = tokio::runtime::Builder::new_multi_thread().worker_threads(workers).enable_all().build().unwrap();
         let seed = h64(&(args.seed, args.shard as u64, h, 78u8));
         let out = rt.block_on(run_conn_history(&cfg, seed));
-        drop(rt);
+        rt.shutdown_background();
         rep.evaluations += 1;
         let cj = json!({"shards": cfg.shards, "clients": cfg.clients, "keys": cfg.keys, "bursts": cfg.bursts, "max_burst": cfg.max_burst, "batch_threshold": cfg.batch_threshold,
             "min_pipeline_buffer": cfg.min_pipeline_buffer, "read_size": cfg.read_size, "shared_pool": cfg.shared_pool, "workers": workers});
